@@ -17,6 +17,11 @@ struct KFifoSpec {
   int k = 1;
   int reject_min = -1; // bounded: a push may be rejected only if at least this many values are stored (-1: never)
   int cap = 1 << 20;
+  // relaxed variant used only to *classify* a failure (known finding F-C06-4): a push that was rejected while it
+  // overlapped other operations may have tentatively occupied a slot of the tail segment and withdrawn it after the
+  // tail had moved on; the slot stays empty between head and tail (a hole) and the ring reports "full" one value early
+  bool count_holes = false;
+  int holes = 0;
   bool apply(const Event& e) {
     int overl = (int)e.res_vc[MAXT - 1];
     if (e.op == 0) {
@@ -27,7 +32,9 @@ struct KFifoSpec {
       }
       // a value that a concurrent push has tentatively placed in a slot (and may withdraw again) is "stored"
       // at that instant in the sense of C06: overlapping operations count towards the occupancy
-      return reject_min >= 0 && n + overl >= reject_min && n + overl > 0;
+      bool ok = reject_min >= 0 && n + overl + holes >= reject_min && n + overl + holes > 0;
+      if (ok && count_holes && overl > 0) holes++;
+      return ok;
     }
     if (e.r0) { // returns one of the k oldest values present
       int lim = n < k ? n : k;
@@ -44,7 +51,7 @@ struct KFifoSpec {
     return n < k && overl > 0;
   }
   uint64_t hash() const {
-    uint64_t h = n;
+    uint64_t h = (uint64_t)holes * 16 + n;
     for (int i = 0; i < n; i++) h = (h << 5) | q[i];
     return h;
   }
@@ -120,7 +127,17 @@ void kfifo_test() {
   delete q;
   KFifoSpec s;
   A::spec(s, k, segs);
-  lin::require_linearizable(s, "a k-relaxed FIFO queue");
+  {
+    lin::Checker<KFifoSpec> strict;
+    if (strict.check(s)) return;
+  }
+  KFifoSpec relaxed = s;
+  relaxed.count_holes = true;
+  lin::Checker<KFifoSpec> c2;
+  if (s.reject_min >= 0 && c2.check(relaxed))
+    fail("LIN_HOLE", "try_push rejected with fewer than (segments-1)*k+1 = %d values stored: explained only by slots that earlier, concurrently rejected pushes "
+         "withdrew after the tail had moved on (holes between head and tail)", s.reject_min);
+  fail("LIN", "history is not linearizable w.r.t. a k-relaxed FIFO queue");
 }
 
 // representation limits: one thread pushes and pops `laps` times round a ring of k*segs slots (k = 1) so that
